@@ -7,15 +7,17 @@
    or a computed variable, and any sequence of them.  PROVED here for all models, valuations and factors: OUTPUT (any
    variable, incl. states and time) and INPUT of any variable that is neither a state nor the free variable, plus the
    no-op, error and bookkeeping clauses, AND INPUT of a state variable (ODE moved to a new variable, new ODE for the
-   converted state, derivative references replaced).  NOT YET PROVED (hence "_partial"): INPUT of the free variable
-   (every ODE rewritten) and the closure under sequences; those are modelled (Model/ConvertVar.v), tied by the
-   correspondence check and decided by the numeric oracle; the lemmas they need are proved
-   (C06_derivative_substitution, C06_fresh_atom, C06_replace_references_is_substitution).
+   converted state, derivative references replaced), AND INPUT of the free variable for the specification-level system
+   free_system (every ODE d y/d v = R moved to w = R, new ODE d y/d n = w / cf, every reference to d y/d v replaced by w):
+   C06_input_free_spec_equiv.  NOT PROVED (hence "_partial"): that the imperative fold of Model/ConvertVar.v reaches
+   free_system up to the order of the equations -- the interpreter evaluates exactly that, and the premises of the
+   theorem, on every correspondence case (free_spec_code) -- and the closure under sequences; both are tied by the
+   correspondence check and decided by the numeric oracle.
    The syntactic premises (fresh_var / fresh_atom / NoDup of left-hand sides) say that the next variable indices are
    new and no variable is defined twice; the interpreter evaluates them on every correspondence case (premises_hold). *)
 From Coq Require Import List ZArith QArith Bool Reals Qreals.
 From Coq Require Import Permutation.
-From Verif Require Import Sexp UnitAlg UnitAlgP Expr Eval ModelSM ConvertVar C06EvalP C06P C06ShapeP C06ReplaceP C06StateP C06MainP.
+From Verif Require Import Sexp UnitAlg UnitAlgP Expr Eval ModelSM ConvertVar C06EvalP C06P C06ShapeP C06ReplaceP C06StateP C06FreeP C06MainP.
 Import ListNotations.
 Open Scope R_scope.
 
@@ -61,6 +63,39 @@ Print Assumptions C06_input_state_equiv_partial.
 
 (* _replace_references_to_derivatives is, up to the order of the equations, substitution in the equations that mention
    the old derivative *)
+(* INPUT conversion of the free variable v into n (n = v * k): the system  plain ++ [d y_i/d v = R_i]  and the system
+   free_system (= what convert_variable produces, up to order: free_spec_code) have the same solutions.  Forward: the new
+   variables take the values n = v*k, w_i = d y_i/d v and the new atoms d y_i/d n = (d y_i/d v)/k.  Backward: every solution
+   of the new system, with d y_i/d v read off w_i, solves the original one and satisfies the same relations. *)
+Theorem C06_input_free_spec_equiv : forall fsem psem csem,
+  (forall x, x <> 0 -> psem x (Q2R (-1 # 1)) = Some (/ x)) ->
+  forall plain os v n id c u nu dl,
+  NoDup (ws_of os) -> NoDup (ys_of os) ->
+  (forall q, In q (orig_system plain os v) -> fresh_var1 n q = true /\
+        (forall w, In w (ws_of os) -> fresh_var1 w q = true) /\ (forall y, In y (ys_of os) -> fresh_atom1 y n q = true)) ->
+  Forall (fun q => is_ode q = false) plain ->
+  ~ In n (ws_of os) -> ~ In v (ws_of os) -> v <> n -> Q2R c <> 0 ->
+  let cf := EQty id c u in
+  let k := Q2R c in
+  let l := orig_system plain os v in
+  let l' := free_system plain os v n cf in
+  (Sat fsem psem csem nu dl l ->
+   Sat fsem psem csem (upd_ws (upd nu n (nu v * k)) os (fun y => dl y v)) (updd_col dl os n (fun y => dl y v / k)) l') /\
+  (Sat fsem psem csem nu dl l' ->
+   Sat fsem psem csem nu (updd_col dl os v (fun y => nu (w_of os y))) l /\
+   nu n = nu v * k /\ Forall (fun o => dl (fst (fst o)) n = nu (snd o) / k) os).
+Proof. exact input_free_equiv. Qed.
+Print Assumptions C06_input_free_spec_equiv.
+
+(* the premises are satisfiable: time 0, states 1 and 2 with d y1/dt = y2 * d y2/dt and d y2/dt = -y1, one plain equation *)
+Theorem C06_input_free_spec_premises_satisfiable : exists plain os v n,
+  os <> [] /\ plain <> [] /\ NoDup (ws_of os) /\ NoDup (ys_of os) /\
+  (forall q, In q (orig_system plain os v) -> fresh_var1 n q = true /\
+        (forall w, In w (ws_of os) -> fresh_var1 w q = true) /\ (forall y, In y (ys_of os) -> fresh_atom1 y n q = true)) /\
+  Forall (fun q => is_ode q = false) plain /\ ~ In n (ws_of os) /\ ~ In v (ws_of os) /\ v <> n.
+Proof. exact input_free_premises_example. Qed.
+Print Assumptions C06_input_free_spec_premises_satisfiable.
+
 Theorem C06_replace_references_is_substitution : forall m l, NoDup (map q_lhs l) ->
   Permutation (replace_derivs m l) (replaced m l).
 Proof. exact replace_derivs_perm. Qed.
